@@ -111,3 +111,138 @@ func zxRoundTimeUntilDownSum(ts time.Time, resolution time.Duration, until time.
 	vrtAssert(delta >= -zxSumWindow*resolution && delta <= zxSumWindow*resolution, "RoundTimeUntilDown argument inside the verified summary window")
 	return until.Add(-time.Duration(zxCeilDiv(int64(delta), int64(resolution))) * resolution)
 }
+
+// ---- expression table for sequence-level harnesses ------------------------------------------
+//
+// The sequence code depends on an expression only through EncodedWidth and Merge/Update/Get, so a
+// few layouts suffice here (9, 17, 18 bytes); the accumulator semantics of the whole expression
+// grammar is decided in package expr (C05.A, C01.E).
+
+type zxLayout struct {
+	e      expr.Expr
+	name   string
+	flags  []int // offsets of "was set" flag bytes inside one accumulator state
+	floats []int // offsets of 8-byte float slots
+	fflag  []int // index into flags guarding each float slot
+}
+
+func zxLayouts() []zxLayout {
+	a, b := expr.FIELD("a"), expr.FIELD("b")
+	return []zxLayout{
+		{expr.SUM(a), "SUM(a)", []int{0}, []int{1}, []int{0}},
+		{expr.MIN(a), "MIN(a)", []int{0}, []int{1}, []int{0}},
+		{expr.AVG(a), "AVG(a)", []int{0}, []int{1, 9}, []int{0, 0}},
+		{expr.ADD(expr.MAX(a), expr.COUNT(b)), "MAX(a)+COUNT(b)", []int{0, 9}, []int{1, 10}, []int{0, 1}},
+	}
+}
+
+func zxLayoutFor() zxLayout {
+	ls := zxLayouts()
+	// quick tier: layouts 0 (9 bytes) and 2 (17 bytes); thorough: all four, incl. the two-flag one
+	ne := vrtParam("ne", len(ls))
+	i := vrtShape("e", ne)
+	if ne == 2 && i == 1 {
+		i = 2
+	}
+	return ls[i]
+}
+
+func zxF64(b []byte) float64 { return Float64FromBytes(b) }
+
+func Float64FromBytes(b []byte) float64 {
+	return zxFrombits(Binary.Uint64(b))
+}
+
+// zxAssumeFinite constrains every set float slot of every period of seq to be finite (DESIGN:
+// NaN/Inf accumulators are outside the claims of C01/C03/C05).
+func zxAssumeFinite(l zxLayout, seq Sequence) {
+	if len(seq) == 0 {
+		return
+	}
+	w := l.e.EncodedWidth()
+	for p := 0; p < seq.NumPeriods(w); p++ {
+		acc := seq[Width64bits+p*w:]
+		for i, off := range l.floats {
+			vrtAssume(vrtImplies(acc[l.flags[l.fflag[i]]] == 1, vrtFinite(zxF64(acc[off:]))))
+		}
+	}
+}
+
+// zxAccAt returns the accumulator bytes of seq for the period ending at t (on the grid), or nil.
+func zxAccAt(seq Sequence, w int, res time.Duration, t time.Time) []byte {
+	if len(seq) == 0 {
+		return nil
+	}
+	until := seq.Until()
+	if t.After(until) {
+		return nil
+	}
+	p := int(until.Sub(t) / res)
+	if p >= seq.NumPeriods(w) {
+		return nil
+	}
+	return seq[Width64bits+p*w : Width64bits+(p+1)*w]
+}
+
+// zxSameAcc: x and y hold the same accumulator state in value: equal set flags and, where set,
+// equal floats (vrtFloatEq). nil means "no data" = all flags unset.
+func zxSameAcc(l zxLayout, x, y []byte) bool {
+	ok := true
+	zero := make([]byte, l.e.EncodedWidth())
+	if x == nil {
+		x = zero
+	}
+	if y == nil {
+		y = zero
+	}
+	for i := range l.flags {
+		ok = vrtAnd(ok, (x[l.flags[i]] == 1) == (y[l.flags[i]] == 1))
+	}
+	for i, off := range l.floats {
+		f := l.flags[l.fflag[i]]
+		ok = vrtAnd(ok, vrtImplies(vrtAnd(x[f] == 1, y[f] == 1), vrtFloatEq(zxF64(x[off:]), zxF64(y[off:]))))
+	}
+	return ok
+}
+
+// zxUnset: acc carries no data.
+func zxUnset(l zxLayout, x []byte) bool {
+	if x == nil {
+		return true
+	}
+	ok := true
+	for _, f := range l.flags {
+		ok = vrtAnd(ok, x[f] != 1)
+	}
+	return ok
+}
+
+// zxMergeAcc is the reference for one period: the real Expr.Merge on fresh copies (nil = unset).
+func zxMergeAcc(l zxLayout, x, y []byte) []byte {
+	w := l.e.EncodedWidth()
+	if x == nil {
+		x = make([]byte, w)
+	}
+	if y == nil {
+		y = make([]byte, w)
+	}
+	out := make([]byte, w)
+	l.e.Merge(out, x, y)
+	return out
+}
+
+func zxClone(s Sequence) Sequence {
+	if s == nil {
+		return nil
+	}
+	return append(Sequence(nil), s...)
+}
+
+// zxOffGrid returns base + k*res - frac for shape k in [lo,hi] and symbolic 0 <= frac < res,
+// together with the grid point base + k*res (which is the value rounded up on the grid).
+func zxOffGrid(name string, base time.Time, res time.Duration, lo, hi int) (time.Time, time.Time) {
+	k := vrtShape(name+"K", hi-lo+1) + lo
+	g := base.Add(time.Duration(k) * res)
+	frac := vrtRange(name+"Frac", 0, int64(res)-1)
+	return g.Add(-time.Duration(frac)), g
+}
